@@ -10,7 +10,7 @@ PROPERTY = "C18"
 RULE = ("Pairs: all 221^2 ordered type pairs x bond orders {guessed,1,1.5,2} x user bond-order rules, pair coefficients "
         "for all 221 types (exhaustive in both tiers). Triples: quick = for every central type 230 random outer pairs "
         "(~50 000) x 3 bond-order settings; thorough = all 221^3. Quadruples: thorough = all 221^2 central pairs x one "
-        "representative outer type per hybridisation class on each side x multiplicities {1,2,3,6,9}, plus 10^6 uniformly "
+        "representative outer type per hybridisation class on each side x multiplicities {1,2,3,6,9}, plus 4*10^6 uniformly "
         "random full quadruples with multiplicity 1-9; quick = a 2% slice of the central pairs and 30 000 random "
         "quadruples. Every evaluation compares the real function with the harness's reference formulas (1e-9 "
         "relative), checks style, finiteness, positivity, and equality under reversal of the type sequence incl. the "
@@ -65,7 +65,7 @@ def cases(tier, seed):
         allc = np.arange(n * n)
         for chunk in np.array_split(allc, 400):
             out.append({"kind": "quads_quotient", "central": [int(x) for x in chunk]})
-        for k in range(100):
+        for k in range(400):
             out.append({"kind": "quads_random", "count": 10000, "s": int(rng.integers(1 << 30))})
     return out
 
